@@ -256,7 +256,10 @@ class Rig(object):
     def peer_close(self, reset=False):
         if reset:
             self.peer.setsockopt(socket.SOL_SOCKET, socket.SO_LINGER, struct.pack("ii", 1, 0))
-        self.log("PeerReset" if reset else "PeerClose")
+        # closing a socket while bytes of the other side are unread (or still on their way) makes TCP answer with a reset instead of an
+        # orderly end of stream: such a close is recorded as what it is on the wire
+        unread = self.client_sent > self.peer_got
+        self.log("PeerReset" if (reset or unread) else "PeerClose")
         self.peer.close()
 
     def finish(self):
